@@ -109,10 +109,11 @@ var reScriptPath = regexp.MustCompile(`script: (\S+)`)
 // ---- model queries ------------------------------------------------------------------
 
 type rpModel struct {
-	base  string // script without check-sat / get-value
-	decl  map[string]bool
-	extra []string // declarations and pinned facts added so far
-	log   []string
+	base   string // script without check-sat / get-value
+	decl   map[string]bool
+	extra  []string // declarations and pinned facts added so far
+	log    []string
+	solver string
 }
 
 func newRpModel(script string, qf bool) *rpModel {
@@ -159,10 +160,23 @@ func (m *rpModel) get(terms []string, tryAsserts ...string) ([]string, bool) {
 	f := filepath.Join(dir, "q.smt2")
 	src := m.base + "\n" + strings.Join(m.extra, "\n") + "\n" + strings.Join(tryAsserts, "\n") + "\n(check-sat)\n(get-value (" + strings.Join(terms, " ") + "))\n"
 	os.WriteFile(f, []byte(src), 0o644)
-	out, _ := exec.Command("z3-new", "-T:30", f).CombinedOutput()
-	s := string(out)
+	var s string
+	for _, cmd := range [][]string{{"z3-new", "-T:30", f}, {"cvc5", "--tlimit=30000", "--produce-models", f}, {"z3", "-T:30", f}} {
+		if m.solver != "" && cmd[0] != m.solver {
+			continue // stay with the solver whose model the pinned values came from
+		}
+		out, _ := exec.Command(cmd[0], cmd[1:]...).CombinedOutput()
+		s = string(out)
+		if strings.HasPrefix(strings.TrimSpace(s), "sat") {
+			m.solver = cmd[0]
+			break
+		}
+	}
 	if !strings.HasPrefix(strings.TrimSpace(s), "sat") {
 		m.log = append(m.log, "query not sat: "+firstLines(s, 2))
+		if d := os.Getenv("GOVC_DEBUG_RP"); d != "" {
+			os.WriteFile(d, []byte(src), 0o644)
+		}
 		return nil, false
 	}
 	body := strings.TrimSpace(s[strings.Index(s, "sat")+3:])
@@ -415,7 +429,7 @@ func (b *rpBuilder) value(t types.Type, leaves []string, depth int) string {
 				continue
 			}
 			switch f.Type().Underlying().(type) {
-			case *types.Map, *types.Chan, *types.Signature, *types.Interface:
+			case *types.Chan, *types.Signature, *types.Interface:
 				continue // zero value
 			}
 			fs = append(fs, f.Name()+": "+b.value(f.Type(), leaves[lo:hi], depth))
@@ -434,10 +448,102 @@ func (b *rpBuilder) value(t types.Type, leaves []string, depth int) string {
 			es = append(es, b.value(u.Elem(), sub, depth))
 		}
 		return b.typeStr(t) + "{" + strings.Join(es, ", ") + "}"
-	case *types.Map, *types.Chan, *types.Signature, *types.Interface:
+	case *types.Map:
+		return b.mapValue(t, u, leaves, depth)
+	case *types.Chan, *types.Signature, *types.Interface:
 		return "(" + b.typeStr(t) + ")(nil)"
 	}
 	return b.fail("unsupported type %s", t)
+}
+
+// mapValue rebuilds a map with integer keys from the model: membership is queried for a finite
+// set of candidate keys (every integer seen so far in the model, and a few small ones); the model
+// is then asked to make the map's domain exactly the members found and, for summed maps, its sum
+// the sum of their values, so that invariants such as used == sum(keyCosts) carry over.
+func (b *rpBuilder) mapValue(t types.Type, u *types.Map, leaves []string, depth int) string {
+	vals, ok := b.m.get(leaves)
+	if !ok {
+		return b.fail("no model value for %s", leaves[0])
+	}
+	ref, _ := smtInt(vals[0])
+	if ref == nil || ref.Sign() == 0 {
+		return "(" + b.typeStr(t) + ")(nil)"
+	}
+	kb, ok := u.Key().Underlying().(*types.Basic)
+	if !ok || kb.Info()&types.IsInteger == 0 {
+		return b.fail("map with non-integer keys")
+	}
+	mi := b.e.mapInfoOf(t)
+	key := "map:" + mi.Key + "@" + ref.String()
+	if v, ok := b.ptrs[key]; ok {
+		return v
+	}
+	b.n++
+	mv := fmt.Sprintf("m%d", b.n)
+	b.ptrs[key] = mv
+	b.stmts = append(b.stmts, fmt.Sprintf("%s := %s{}", mv, b.typeStr(t)))
+	dom := quoteSym(mi.domName() + "@0")
+	b.m.declare(dom, mi.domSort())
+	domArr := fmt.Sprintf("(select %s %s)", dom, ref.String())
+	kw := b.e.layoutOf(u.Key()).L[0].W
+	var cands []int64
+	for v := range b.dom {
+		if v >= 0 && (kw >= 63 || v < (1<<uint(kw))) {
+			cands = append(cands, v)
+		}
+	}
+	sort.Slice(cands, func(i, j int) bool { return cands[i] < cands[j] })
+	if len(cands) > 40 {
+		cands = cands[:40]
+	}
+	var memberQ []string
+	for _, c := range cands {
+		memberQ = append(memberQ, fmt.Sprintf("(select %s (_ bv%d %d))", domArr, c, kw))
+	}
+	mem, ok := b.m.get(memberQ)
+	if !ok {
+		return b.fail("no model for the map's domain")
+	}
+	var members []int64
+	for i, c := range cands {
+		if strings.TrimSpace(mem[i]) == "true" {
+			members = append(members, c)
+		}
+	}
+	// ask for a model in which the domain is exactly these members (and sum/cardinality agree)
+	arr := fmt.Sprintf("((as const (Array (_ BitVec %d) Bool)) false)", kw)
+	for _, c := range members {
+		arr = fmt.Sprintf("(store %s (_ bv%d %d) true)", arr, c, kw)
+	}
+	try := []string{fmt.Sprintf("(assert (= %s %s))", domArr, arr)}
+	var valArrs []string
+	for j := range mi.VLeaves {
+		vs := quoteSym(mi.valName(j) + "@0")
+		b.m.declare(vs, mi.valSort(j))
+		valArrs = append(valArrs, fmt.Sprintf("(select %s %s)", vs, ref.String()))
+	}
+	if cf := quoteSym("mcard:" + mi.KSort); b.m.decl[cf] {
+		try = append(try, fmt.Sprintf("(assert (= (%s %s) (_ bv%d 64)))", cf, domArr, len(members)))
+	}
+	if sf := quoteSym("msum:" + mi.KSort); b.m.decl[sf] && len(mi.VLeaves) == 1 && mi.VLeaves[0].Kind == kBV && mi.VLeaves[0].W == 64 {
+		sum := "(_ bv0 64)"
+		for _, c := range members {
+			sum = fmt.Sprintf("(bvadd %s (select %s (_ bv%d %d)))", sum, valArrs[0], c, kw)
+		}
+		try = append(try, fmt.Sprintf("(assert (= (%s %s %s) %s))", sf, domArr, valArrs[0], sum))
+	}
+	if _, ok := b.m.get([]string{"alloc0"}, try...); !ok {
+		b.m.log = append(b.m.log, "the model cannot be narrowed to a finite map; using the candidate members only")
+	}
+	for _, c := range members {
+		var sub []string
+		for j := range mi.VLeaves {
+			sub = append(sub, fmt.Sprintf("(select %s (_ bv%d %d))", valArrs[j], c, kw))
+		}
+		val := b.value(u.Elem(), sub, depth-1)
+		b.stmts = append(b.stmts, fmt.Sprintf("%s[%s(%d)] = %s", mv, b.typeStr(u.Key()), c, val))
+	}
+	return mv
 }
 
 // ---- clause analysis ------------------------------------------------------------------
@@ -659,6 +765,27 @@ func buildGoReplay(e *Engine, verif, prop string, r *FuncResult, o *Obl, rec map
 		}
 		rec["replay_note"] = "no model with small slices exists; using the solver's model as is"
 	}
+	// all scalar inputs in one query (one consistent model); the integers among them are candidate
+	// map keys and quantifier instances
+	var inNames []string
+	for _, in := range r.VC.inputs {
+		if in.Sort == "Int" || in.Sort == "Bool" || strings.HasPrefix(in.Sort, "(_ BitVec") {
+			inNames = append(inNames, in.Name)
+		}
+	}
+	if vs, ok := m.get(inNames); ok {
+		for i, in := range r.VC.inputs {
+			_ = in
+			if i < len(vs) && strings.HasPrefix(vs[i], "#") {
+				if n, ok := smtInt(vs[i]); ok {
+					b.note(n)
+				}
+			}
+		}
+	}
+	for v := int64(0); v <= 3; v++ {
+		b.dom[v] = true
+	}
 	var argExprs []string
 	pi := 0
 	for _, p := range fn.Params {
@@ -671,7 +798,7 @@ func buildGoReplay(e *Engine, verif, prop string, r *FuncResult, o *Obl, rec map
 		pi++
 	}
 	if b.bad != "" {
-		return why("inputs cannot be built from the model: %s", b.bad)
+		return why("inputs cannot be built from the model: %s (%s)", b.bad, strings.Join(m.log, "; "))
 	}
 	// ---- the test
 	var names, typs []string
@@ -762,7 +889,7 @@ func buildGoReplay(e *Engine, verif, prop string, r *FuncResult, o *Obl, rec map
 	if nres > 0 {
 		call = strings.Join(resNames, ", ") + " = " + call
 	}
-	fmt.Fprintf(&sb, "\tpanicked := func() (p any) { defer func() { p = recover() }(); %s; return nil }()\n", call)
+	fmt.Fprintf(&sb, "\tpanicked := func() (rpPanic any) { defer func() { rpPanic = recover() }(); %s; return nil }()\n", call)
 	if kind == "panic" {
 		fmt.Fprintf(&sb, "\tif panicked != nil {\n\t\tfmt.Printf(\"GOVC-REPLAY: VIOLATED: the real code panics on this input: %%v\\n\", panicked)\n\t} else {\n\t\tfmt.Println(\"GOVC-REPLAY: no panic on this input\")\n\t}\n}\n")
 	} else {
@@ -921,4 +1048,10 @@ func toolEnv(goarch string) []string {
 	return env
 }
 
-func selftest(repo, verif string, args []string, tier string) error { return nil }
+// selftest runs the must-fail corpus (tools/selftest.sh): seeded changes and reversed fixes, each
+// applied in a scratch worktree, must be reported by the property's check.
+func selftest(repo, verif string, args []string, tier string) error {
+	cmd := exec.Command(filepath.Join(verif, "tools", "selftest.sh"), args...)
+	cmd.Stdout, cmd.Stderr = os.Stdout, os.Stderr
+	return cmd.Run()
+}
